@@ -374,6 +374,10 @@ func (d *Ledger) call(fn, caller, rcpt string, args ...[]byte) *world.Call {
 	if caller != "esdtsc" && d.R.Intn(25) == 0 {
 		c.RAE = true // every call flag combination: a flagged return-after-error on an ordinary call
 	}
+	if d.R.Intn(8) == 0 {
+		// gas locked for the callback of an asynchronous call: below, around and above the prices in force
+		c.GasLocked = []uint64{1, 50, 150, 400, 5000, 1 << 62}[d.R.Intn(6)]
+	}
 	return c
 }
 
@@ -1262,7 +1266,7 @@ func (d *Ledger) actAccountLevel() {
 			caller = d.anyAcct()
 		}
 		c := d.call("ClaimDeveloperRewards", caller, sc)
-		if d.W.Info(caller).Kind == "sc" && d.chance(50) {
+		if (d.W.Info(caller).Kind == "sc" && d.chance(50)) || d.chance(25) {
 			c.CT = vmcommon.AsynchronousCall
 		}
 		d.record("exec", d.shardOfName(caller), c)
@@ -1380,6 +1384,9 @@ func (d *Ledger) actForged() {
 			break
 		}
 		caller = ""
+	}
+	if rcpt != "meta1" && d.chance(20) {
+		caller = "meta1" // a metachain contract other than the ESDT system contract: no exemption from the payability query
 	}
 	if caller == "" {
 		return // single-shard world and an ordinary recipient: there is no "other shard"
